@@ -4932,24 +4932,6 @@ bool SoPlexBase<R>::getBasisInverseColReal(int c, R* coef, int* inds, int* ninds
                DSVectorBase<R> rhs(1);
                rhs.add(index, spxLdexp(1.0, scaleExp));
                _solver.basis().coSolve(x, rhs);
-               x.setup();
-               int size = x.size();
-
-               // apply scaling based on \tilde{C}
-               for(int i = 0; i < size; i++)
-               {
-                  int idx = bind[x.index(i)];
-
-                  if(idx < 0)
-                  {
-                     idx = -idx - 1;
-                     scaleExp = _scaler->getRowScaleExp(idx);
-                  }
-                  else
-                     scaleExp = - _scaler->getColScaleExp(idx);
-
-                  spxLdexp(x.value(i), scaleExp);
-               }
             }
             else
             {
